@@ -29,6 +29,18 @@ def gen_run(tier, fault=False):
         g["via_image"] = draw(st.sampled_from([False, False, True]))
         if not fault and draw(st.integers(0, 11)) == 0:
             o["num_iter"] = 0  # only the initial Darcy flux: still mass-conserving, never converged
+        elif not fault and draw(st.integers(0, 7)) == 0:
+            # the same class built directly (a random draw reaches it in about 1 of 100 runs): Newton with
+            # Anderson acceleration whose last iteration is the first one after a restart
+            r = draw(st.sampled_from([2, 3, 5]))
+            o.update(method="newton", aa_depth=draw(st.sampled_from([2, 5])), aa_restart=r,
+                     num_iter=r * draw(st.sampled_from([1, 1, 2])) + 1, tol=draw(st.sampled_from([1e-6, 1e-12])))
+        elif o["aa_depth"] and o["aa_restart"] and draw(st.booleans()):
+            # Anderson acceleration with restart: runs that end on or next to a restart boundary (the
+            # returned flux is then the first iterate mixed against a freshly reset history), with
+            # tolerances that keep the run from stopping earlier (round 5, C04-u1)
+            o["num_iter"] = o["aa_restart"] * draw(st.sampled_from([1, 2, 3])) + draw(st.sampled_from([0, 1, 1, 2]))
+            o["tol"] = draw(st.sampled_from([1e-6, 1e-12]))
         if fault:
             o["tol"] = draw(st.sampled_from([None, 1e-12, 1e-12, 1e-3]))
             case["fault_point"] = draw(st.sampled_from(["linear_solve", "linear_solve", "face_weight",
